@@ -24,7 +24,7 @@ def run_one(patch, prop, extra_props=()):
         subprocess.run(["rsync", "-a", "--exclude", ".git", "--exclude", "__pycache__", "/repo/", scratch + "/"], check=True)
         p = subprocess.run(["patch", "-p1", "-s", "-i", patch], cwd=scratch, capture_output=True, text=True)
         if p.returncode != 0:
-            return {"patch": patch, "applies": False}
+            return {"patch": os.path.relpath(patch, HERE), "property": prop, "applies": False}
         t = subprocess.run([PY, "-m", "pytest", "-q", "-p", "no:cacheprovider", "-x", "--timeout=900"], cwd=scratch,
                            capture_output=True, text=True)
         tests_pass = t.returncode == 0
